@@ -177,6 +177,22 @@ def run(F, S, R, tier):
                 R.ok("prov/fallback-number/" + fn, "the frozen item retrieved is the block's own number", [rt[0].where()])
             else:
                 R.bad("prov/fallback-number/" + fn, "%s retrieves a frozen item other than the block's own number" % fn, [b.where()])
+        # the freezer branch is taken under exactly the two number tests (and the freezer being configured): one more condition ("while the uncles
+        # row is still there", round-3 seed C10-seed5) makes the answer for a frozen block depend on something else than where the block lives
+        import atoms as A
+        for fn in ("get_block", "get_transaction_with_info"):
+            b = F.need("ckb_store::store::ChainStore::" + fn)
+            gs = A.guards_of([b] + list(b.nested()), S, r"freezer::Freezer::retrieve$")
+            R.sites += len(gs)
+            if not gs:
+                R.bad("cmp/fallback-bound/%s/exact/anchor-lost" % fn, "no guarded Freezer::retrieve call found in %s" % fn, [b.where()])
+                continue
+            for nm, tests in gs:
+                extra = [t for t in tests if not t.startswith('["lt"')]
+                if len(tests) == 2 and not extra:
+                    R.ok("cmp/fallback-bound/%s/exact" % fn, "the frozen copy is read under exactly 0 < number and number < freezer.number()", [b.where()])
+                else:
+                    R.bad("cmp/fallback-bound/%s/exact" % fn, "%s reads the frozen copy under %d condition(s) %s, reviewed: exactly the two number tests" % (fn, len(tests), [t[:120] for t in (extra or tests)]), [b.where()])
         gt = F.need("ckb_store::store::ChainStore::get_transaction_with_info")
         g = [c for c in gt.calls if c.callee.endswith("::get") and K.src_match(gt.operand_sources(c.args[1]), [r"field:.*TransactionInfo\.index"])] if gt else []
         if g:
